@@ -80,6 +80,7 @@ def one_history(args):
         sess = noderig.NodeSession(d, snapshot_size=snap)
         b = sess.call("barrier", min_index=1, bound_ms=15000)
         recovering = False
+        last_content = {}
         tag = lambda how: how + (" [during-recovery]" if recovering else "")
         for rd in range(rounds):
             if recovering and rd > recover_until:
@@ -109,21 +110,59 @@ def one_history(args):
                     log.add("raft:raw" + key, v["NextId"], t_call, t_ret, tag("SequenceRaftReq::NextId"))
                     res["draws"] += 1
             elif c < 0.85:
-                k = rnd.choice(config_keys)
-                pub_n += 1
-                t_call = log.tick()
-                r = sess.call("publish", content="c%d-%d" % (seed, pub_n), **k)
-                t_ret = log.tick()
-                if r.get("ok"):
-                    res["publishes"] += 1
-                    dump = sess.call("dump", config_keys=[k], service_keys=[])
+                # one publish, or a run of publishes long enough to cross the 100-id windows of the history sequence; some of
+                # them re-publish unchanged content (no new history entry, but the leader still draws an id for them)
+                n_pub = rnd.choice([1, 1, 1, 40, 130])
+                for _ in range(n_pub):
+                    k = rnd.choice(config_keys)
                     name = "|%s|%s" % (k["group"], k["data_id"])
-                    hist = ((dump.get("configs") or {}).get(name) or {}).get("history") or []
-                    if hist:
-                        # newest first: the entry just written is hist[0]
-                        log.add("config-history", hist[0][0], t_call, t_ret, tag("publish %s" % k["data_id"]))
-                        if recovering:
-                            res["published_during_recovery"] = True
+                    unchanged = rnd.random() < 0.3 and name in last_content
+                    if not unchanged:
+                        pub_n += 1
+                        last_content[name] = "c%d-%d" % (seed, pub_n)
+                    t_call = log.tick()
+                    r = sess.call("publish", content=last_content[name], **k)
+                    t_ret = log.tick()
+                    if r.get("ok"):
+                        res["publishes"] += 1
+                        if unchanged:
+                            res["classes"].add("republish-unchanged")
+                            continue
+                        dump = sess.call("dump", config_keys=[k], service_keys=[])
+                        hist = ((dump.get("configs") or {}).get(name) or {}).get("history") or []
+                        if hist:
+                            # newest first: the entry just written is hist[0]
+                            log.add("config-history", hist[0][0], t_call, t_ret, tag("publish %s" % k["data_id"]))
+                            if recovering:
+                                res["published_during_recovery"] = True
+            elif c < 0.90:
+                # a compaction placed right before a single sequence write, then a quiescent restart: the restart has to replay
+                # exactly one entry behind the snapshot
+                sess.call("barrier", min_index=0, bound_ms=15000)
+                sess.call("compact")
+                key = rnd.choice(KEYS)
+                t_call = log.tick()
+                r = sess.write({"SequenceReq": {"req": {"NextId": "raw" + key}}})
+                t_ret = log.tick()
+                v = ((r.get("resp") or {}).get("SequenceResp") or {}).get("resp", {}) if r.get("ok") else {}
+                if "NextId" in v:
+                    log.add("raft:raw" + key, v["NextId"], t_call, t_ret, tag("SequenceRaftReq::NextId"))
+                    res["draws"] += 1
+                sess.call("barrier", min_index=0, bound_ms=15000)
+                sess.call("sleep", ms=100)
+                sess.kill()
+                log.restarts.append((log.tick(), "quiescent"))
+                sess = noderig.NodeSession(d, snapshot_size=snap)
+                res["restarts"] += 1
+                res["classes"].add("restart:one-entry-behind-snapshot")
+                b = sess.call("barrier", min_index=0, bound_ms=15000)
+                t_call = log.tick()
+                r = sess.write({"SequenceReq": {"req": {"NextId": "raw" + key}}})
+                t_ret = log.tick()
+                v = ((r.get("resp") or {}).get("SequenceResp") or {}).get("resp", {}) if r.get("ok") else {}
+                if "NextId" in v:
+                    log.add("raft:raw" + key, v["NextId"], t_call, t_ret, tag("SequenceRaftReq::NextId"))
+                    res["draws"] += 1
             else:
                 # restart: quiescent, or SIGKILL while a request is in flight (its ids are never seen: not counted)
                 mode = rnd.choice(["quiescent", "mid-burst", "right-after-ack"])
